@@ -8,6 +8,7 @@ import (
 
 func TestVerifReplay(t *testing.T) {
 	vrt.RunReplay(t, map[string]func(){
-		"VerifC09Quick": VerifC09Quick,
+		"VerifC09Quick":    VerifC09Quick,
+		"VerifC09Thorough": VerifC09Thorough,
 	})
 }
